@@ -6,8 +6,13 @@ package main
 //   mode   bin | asc
 //   init   full | nomodel | noserial | nojson | nosvg | noname | late   (what the panel answers to the initial request;
 //          late = everything at once except the SVG which comes 2.5 s after the request)
+//          close0 (the panel closes the connection when it has seen the initial request, nothing sent) |
+//          close2 (sends the identity message — model, serial, name — waits 100 ms, closes) |
+//          overlimit (identity message, 100 ms, then a frame header 500000 and nothing more; connection stays open; binary only) |
+//          stall (identity message, then a frame of which 3 bytes never come / a line without its line feed, then silence)
 //   bind   comma list of bindings: t<id> trigger, b<id> binary, p<id> pulsed, a<id> absolute, i<id> intensity ("-" = none)
-//   fb     1 = every handler sends feedback with SetLEDColor (into the queue the dispatching loop drains);
+//   fb     1 = every handler sends feedback with SetLEDColor (into toPanel — which the pinned code drained in the same loop that
+//          dispatches; now a writer goroutine of its own does);
 //          2 = every handler starts `fbn` (default 40) goroutines that each send one large state (`fbsz` bytes of graphics,
 //          default 1 MiB) with SendRawState: feedback that backs up behind a panel which is not reading (binary only)
 //   race   1 = a second goroutine keeps re-registering the same handlers while the history is sent (child process);
@@ -18,8 +23,12 @@ package main
 //          ex<id>.<pressed>.<edge>.<v> (binary + pulsed in one event) | g (ping) | i<model>.<serial>.<name> (hex, - empty)
 //          t<jsonhex>.<svghex>.<nHWc> | m<k>:<v>,… | xo<len> (header only, len ≥ limit) | xt<n> (header n, n-3 bytes, 2.5 s stall)
 //          B<n>.<id> (n binary press events) | w<ms> | P (the panel stops reading its socket) | R (… reads again)
+//          A (a message whose flow field is ACK and nothing else) | A<item> (the message of <item> with the flow field ACK)
+//          K<kind><id> (the user registers a handler at this point: the script calls Bind* and goes on when it has returned;
+//          kind as in `bind`; put a pause before it so that what was sent earlier has been dispatched)
 //
-// Output: init=ok|err  inv=<tok,tok…>  acks=<n>  pings=<n>  fb=<n>  model= serial= name=  tj= sv= tn= tg= tf= av=  tconn= tlast= closed=
+// Output: init=ok|err  inv=<tok,tok…>  acks=<n>  pings=<n>  fb=<n>  model= serial= name=  tj= sv= tn= tg= tf= av=  isinit= tconn= tlast= closed=
+//   init = whether Connect returned an error; isinit = what IsInitialized() says afterwards
 //   tg = digest of json.Marshal(GetTopology()), tf = digest of json.Marshal of a FRESH unmarshal of the stored topology JSON (tj)
 //   invocation tokens: t<id>.<component summary> b<id>.<status>.<edge> p<id>.<v> a<id>.<v> i<id>.<v>
 
@@ -172,10 +181,11 @@ func gwRunChild(args []string, instrumented bool) string {
 // ---- history items -> messages ----
 
 type gwItem struct {
-	kind  string // msg | over | trunc | wait
+	kind  string // msg | over | trunc | wait | pause | resume | bind
 	msgs  []*rwp.OutboundMessage
 	n     int
-	count int // events in a burst (for pacing)
+	count int  // events in a burst (for pacing)
+	bk    byte // bind: kind of handler
 }
 
 func gwHexStr(s string) string {
@@ -222,6 +232,24 @@ func gwParseHist(h string) []gwItem {
 			continue
 		}
 		switch it[0] {
+		case 'A':
+			if len(it) == 1 {
+				items = append(items, gwItem{kind: "msg", msgs: []*rwp.OutboundMessage{{FlowMessage: rwp.OutboundMessage_ACK}}})
+			} else {
+				for _, sub := range gwParseHist(it[1:]) {
+					if sub.kind == "msg" {
+						for _, m := range sub.msgs {
+							m.FlowMessage = rwp.OutboundMessage_ACK
+						}
+						items = append(items, sub)
+					}
+				}
+			}
+		case 'K':
+			if len(it) >= 3 {
+				id, _ := strconv.Atoi(it[2:])
+				items = append(items, gwItem{kind: "bind", bk: it[1], n: id})
+			}
 		case 'e':
 			f := strings.Split(it[2:], ".")
 			id, _ := strconv.Atoi(f[0])
@@ -381,7 +409,7 @@ func gwRun(a map[string]string) string {
 	seg := a["seg"]
 	items := gwParseHist(a["hist"])
 	if !bin {
-		if fbBig {
+		if fbBig || initv == "overlimit" {
 			return "skip:binary-only"
 		}
 		for _, it := range items {
@@ -424,6 +452,7 @@ func gwRun(a map[string]string) string {
 	panelDone := make(chan struct{}) // panel goroutines finished
 	stop := make(chan struct{})
 	var acks, pings, fbk int32
+	var bindHook func(kind byte, id uint32) // set before goCh is closed
 	var paused int32  // the panel does not read its socket
 	var lastRx int64  // unix nanos of the last ack / feedback frame the panel parsed
 	var histDoneAt int64
@@ -599,6 +628,38 @@ func gwRun(a map[string]string) string {
 		case "nosvg", "late":
 			topo.Svgbase = ""
 		}
+		switch initv {
+		case "close0", "close2", "overlimit", "stall":
+			// the connection ends (or a frame stalls) inside the initialisation window
+			if initv != "close0" {
+				send(gwWire(bin, &rwp.OutboundMessage{PanelInfo: info}))
+			}
+			hold := func(d time.Duration) {
+				select {
+				case <-time.After(d):
+				case <-stop:
+				case <-rdone:
+				}
+			}
+			switch initv {
+			case "close2":
+				hold(100 * time.Millisecond)
+			case "overlimit":
+				hold(100 * time.Millisecond)
+				c.Write([]byte{0x20, 0xa1, 0x07, 0x00}) // 500000
+				hold(4 * time.Second)
+			case "stall":
+				if bin {
+					c.Write([]byte{40, 0, 0, 0})
+					c.Write(make([]byte, 37))
+				} else {
+					c.Write([]byte("_isSleeping=")) // a line that never gets its line feed
+				}
+				hold(4 * time.Second)
+			}
+			close(histDone)
+			return
+		}
 		send(gwWire(bin, &rwp.OutboundMessage{PanelInfo: info}))
 		send(gwWire(bin, &rwp.OutboundMessage{HWCavailability: map[uint32]uint32{1: 1}}))
 		if topo.Json != "" || topo.Svgbase != "" {
@@ -647,6 +708,10 @@ func gwRun(a map[string]string) string {
 				select {
 				case <-time.After(time.Duration(it.n) * time.Millisecond):
 				case <-stop:
+				}
+			case "bind":
+				if bindHook != nil {
+					bindHook(it.bk, uint32(it.n))
 				}
 			case "pause":
 				atomic.StoreInt32(&paused, 1)
@@ -763,6 +828,7 @@ func gwRun(a map[string]string) string {
 	} else {
 		close(raceDone)
 	}
+	bindHook = func(kind byte, id uint32) { doBind(binding{kind, id}) }
 	mu.Lock()
 	lastInv = time.Now()
 	mu.Unlock()
@@ -823,6 +889,7 @@ func gwRun(a map[string]string) string {
 		" fb=" + strconv.Itoa(int(atomic.LoadInt32(&fbk))) +
 		" model=" + hx([]byte(model)) + " serial=" + hx([]byte(serial)) + " name=" + hx([]byte(name)) +
 		" tj=" + hx([]byte(tj)) + " sv=" + hx([]byte(sv)) + " tn=" + strconv.Itoa(tn) + " tg=" + tg + " tf=" + tf + " av=" + av +
+		" isinit=" + b01(rp.IsInitialized()) +
 		" closed=" + strconv.Itoa(int(atomic.LoadInt32(&sawClose))) +
 		" tconn=" + strconv.FormatInt(tconn, 10) + " tlast=" + strconv.FormatInt(tlast, 10)
 	rp.Close()
@@ -989,6 +1056,9 @@ func gwRandUpdate(r *Rng, ver int) string {
 		}
 		return "m" + strings.Join(q, ",")
 	}
+	if r.Chance(40) {
+		return "A" // an acknowledge (answer to the client's own ping): no effect
+	}
 	return "g"
 }
 
@@ -1098,6 +1168,39 @@ func genC19(r *Rng, n int, tier string) {
 	if thorough {
 		add("mode=asc", "init=full", "bind=b1,t1,p2", "fb=0", "race=1", "seg=0", "hist=B500.1;ep2.1;B500.1")
 		add("mode=asc", "init=full", "bind=b1,t1,p2", "fb=0", "race=2", "seg=0", "hist=B300.1;ep2.1")
+	}
+	// (7) a message with flow field ACK that carries nothing is dropped without effect (no handler, no ack back)
+	for _, mode := range modes {
+		add("mode="+mode, "init=full", "bind=b1", "fb=0", "seg=0", "hist=eb1.1.0;A;g;A;eb1.0.0")
+	}
+	// (8) handlers registered in the middle of a script (after a pause, so that what was sent before has been dispatched):
+	// events before the registration are not delivered to the new handler, every event after it exactly once
+	for _, mode := range modes {
+		add("mode="+mode, "init=full", "bind=b1,t2", "fb=0", "seg=0",
+			"hist=eb1.1.0;ep3.1;eb2.1.0;w300;Kp3;Kb2;ep3.-1;eb2.0.0;w300;Kt3;Kb1;ep3.2;eb1.0.0")
+		add("mode="+mode, "init=full", "bind=-", "fb=1", "seg=0", "hist=ea4.500;w300;Ka4;ea4.501;B20.4;w300;Kb4;B20.4;ea4.1")
+	}
+	// (9) initialisation: a line that never gets its line feed — the window passes, Connect fails (ASCII reader has no deadline)
+	add("mode=asc", "init=stall", "bind=b1", "fb=0", "seg=0", "hist=-")
+	// (10) OPEN FINDING, not part of the default run (VERIF_C19_CONNECT=1): the connection is lost inside the initialisation
+	// window — the unchanged library returns success from Connect although model, serial, topology JSON and SVG have not arrived
+	if os.Getenv("VERIF_C19_CONNECT") == "1" {
+		for _, mode := range modes {
+			for _, iv := range []string{"close0", "close2", "overlimit", "stall"} {
+				if mode == "asc" && (iv == "overlimit" || iv == "stall") {
+					continue
+				}
+				add("mode="+mode, "init="+iv, "bind=b1", "fb=0", "seg=0", "hist=-")
+			}
+		}
+	}
+	// (11) OPEN FINDING, not part of the default run (VERIF_C19_ACKFLOW=1): a message with flow field ACK that also carries an
+	// event / identity: the binary reader of the unchanged library drops it whole (the ASCII reader only the `ack` line)
+	if os.Getenv("VERIF_C19_ACKFLOW") == "1" {
+		for _, mode := range modes {
+			add("mode="+mode, "init=full", "bind=b1", "fb=0", "seg=0", "hist=Aeb1.1.0")
+			add("mode="+mode, "init=full", "bind=b1,p2", "fb=0", "seg=0", "hist=eb1.1.0;Aep2.1;eb1.0.0;Ai"+gwHexOf("M2")+".-.-")
+		}
 	}
 	gwRunIsolated(recs, 32)
 }
